@@ -1663,8 +1663,11 @@ def _faults(rnd, cfg):
             f["double"] = True
         return [f]
     if kind == "F-kernel":
+        if rnd.random() < 0.7:
+            # the k-th kernel call of the op, whatever it is: lands inside multi-call solvers at arbitrary depth
+            return [{"kind": "F-any", "nth": rnd.choice((1, 1, 2, 2, 3, 4, 5, 6, 8, 10, 13, 17, 22, 30))}]
         return [{"kind": "F-kernel", "kernel": rnd.choice(FAULTABLE), "nth": rnd.choice((1, 1, 2, 3, 6))}]
-    return [{"kind": "F-stdout", "nth": rnd.choice((1, 2, 5, 9, 14)), "errno": rnd.choice(("EPIPE", "ENOSPC"))}]
+    return [{"kind": "F-stdout", "nth": rnd.choice((1, 2, 3, 5, 7, 9, 11, 14, 19, 25)), "errno": rnd.choice(("EPIPE", "ENOSPC"))}]
 
 
 def _choose(ctx):
